@@ -104,6 +104,7 @@ structure Doc where
   seqRange : Option (Nat × Nat) := none  -- stream_datum.seq_nums
   idxRange : Option (Nat × Nat) := none  -- stream_datum.indices
   keys : List Key := []                -- descriptor.data_keys / event.data keys (in order)
+  extKeys : List Key := []             -- descriptor: the data keys marked external "STREAM:"
   data : List (Key × Val) := []        -- event.data
   note : Option String := none         -- interruption content
   objKeys : List (Obj × List Key) := []  -- descriptor.object_keys
@@ -213,6 +214,19 @@ structure BState where
   cpCleared : Bool := false   -- clear_checkpoint happened and no full reset_checkpoint_state since
 deriving Repr
 
+/-- ghost log of what an operation did to the sequence counters, in order (used only by the
+    proofs: the counter machine of Lemmas/C05*.lean is driven by these micro-events) -/
+inductive CEv where
+  | newStream (n : Name)                 -- ComposeDescriptor: `event_counters[name] = 1` for a new stream
+  | ensure (n : Name)                    -- _prepare_stream: both dicts := 1 when the stream has no counter
+  | emit (n : Name) (c : Nat) (replay : Bool)  -- ComposeEvent used seq_num c (replay: a bundle event)
+  | bump (n : Name) (c d : Nat)          -- collect advanced the counter from c by d
+  | commit (n : Name)                    -- _commit_sequence_counter
+  | reset                                -- reset_checkpoint_state
+  | rewind (descs : List Name)           -- rewind, with the keys of _descriptor_objs
+  | clear                                -- clear_checkpoint
+deriving DecidableEq, Repr
+
 /-- result of one operation: state after, documents emitted, device calls made, and the
     exception (if any) that ended it -- state/documents up to the raise are kept, as in Python -/
 structure Res where
@@ -220,6 +234,7 @@ structure Res where
   docs : List Doc := []
   calls : List Call := []
   err : Option Err := none
+  cev : List CEv := []      -- ghost
 
 def Res.ok (s : BState) : Res := { st := s }
 def Res.fail (s : BState) (e : Err) : Res := { st := s, err := some e }
@@ -230,7 +245,10 @@ def Res.andThen (r : Res) (f : BState → Res) : Res :=
   | some _ => r
   | none =>
     let r2 := f r.st
-    { st := r2.st, docs := r.docs ++ r2.docs, calls := r.calls ++ r2.calls, err := r2.err }
+    { st := r2.st, docs := r.docs ++ r2.docs, calls := r.calls ++ r2.calls, err := r2.err, cev := r.cev ++ r2.cev }
+
+/-- apply a pure state change that is logged as the counter micro-events `evs` -/
+def Res.pure (s : BState) (evs : List CEv) : Res := { st := s, cev := evs }
 
 /-- operations on one RunBundler (after its `open_run`), plus environment events -/
 inductive Op where
